@@ -100,15 +100,26 @@ Apply(k, n, r) ==
 (*            definition SPELL their parameters differently                 *)
 (*  order   shadow*: whether the outer declaration is visible at the inner  *)
 (*            one depends on which of them comes first                      *)
-(*  expand  templateRecursion, unknownMacro: findings about the template /  *)
-(*            macro construct itself                                        *)
+(*  alias   (InlineTypedef, InlineUsing) constVariablePointer,               *)
+(*            constParameterPointer: advice on how to WRITE the declared    *)
+(*            type ("can be declared as pointer to const"); it cannot be    *)
+(*            followed where the pointer is hidden in the alias, and        *)
+(*            cppcheck documents that it keeps silent there                 *)
+(*  macro   (ExpandMacro) style findings about how an expression is         *)
+(*            WRITTEN, which cppcheck documents not to give for text that   *)
+(*            comes out of a macro (the written text is the macro's, and    *)
+(*            may differ per configuration): duplicateExpression,           *)
+(*            knownConditionTrueFalse, and unknownMacro itself              *)
+(*  templ   (HandInstantiate) templateRecursion: about the template itself  *)
 
 ShadowIds == {"shadowVariable", "shadowArgument", "shadowFunction", "shadowMember"}
 Exempt(k) ==
   CASE k \in LayoutKinds -> {"suspiciousSemicolon", "duplicateBreak", "commaSeparatedReturn"}
     [] k \in RenameKinds -> ShadowIds \cup {"funcArgNamesDifferent", "funcArgOrderDifferent"}
     [] k \in OrderKinds  -> ShadowIds
-    [] k \in ExpandKinds -> {"templateRecursion", "unknownMacro"}
+    [] k \in {"InlineTypedef", "InlineUsing"} -> {"constVariablePointer", "constParameterPointer"}
+    [] k = "ExpandMacro" -> {"unknownMacro", "duplicateExpression", "knownConditionTrueFalse"}
+    [] k = "HandInstantiate" -> {"templateRecursion"}
 
 \* what of an observation is compared across a step of kind k.  An observation is a set of records with at least
 \* id, key (projected identity), mk (identity without locations), indef (located inside the expanded entity)
